@@ -6,6 +6,22 @@ from tools.gen import cfuns as gen_cfuns
 from tools.gen.csrc import ExtractError
 
 THEOREMS = [
+    # session 4 (second builder): condition guards of if / while at EVERY emission site (also the while loop recompiled as a closure),
+    # constant folding of the condition
+    "JanetModel.Spec.guard_jump_step",
+    "JanetModel.Spec.condValue_truthy",
+    "JanetModel.Spec.headRow_binop",
+    "JanetModel.Spec.guardSel_sound",
+    "JanetModel.Spec.guardSel_fold_sound",
+    "JanetModel.Spec.const_compile_sound",
+    "JanetModel.Spec.iife_guard_exec",
+    "JanetModel.Spec.leave_guard_step",
+    "JanetModel.Props.C15.nil_guard_sites_ok",
+    "JanetModel.Props.C15.nil_const_folds_ok",
+    "JanetModel.Props.C15.nil_head_rows_ok",
+    "JanetModel.Props.C15.guard_site_same_branch",
+    "JanetModel.Props.C15.while_iife_guard_computes",
+    "JanetModel.Props.C15.const_fold_same_branch",
     # session 4 (second part): variadic arithmetic as an emitter with registers
     "JanetModel.Spec.isImmOp_of_base",
     "JanetModel.Spec.acc_step",
